@@ -130,6 +130,8 @@ def clause_env_module(interp):
                             .integral_model(it, f, a, b), pass_interp=True),
         'ext_call': Builtin('ext_call', lambda it, name, k=-1: [
             c for c in it.ext_calls if c[0] == name][k][1], pass_interp=True),
+        'cell': Builtin('cell', lambda it, io, i, j: io.rows[i][j],
+                        pass_interp=True),
         'isclose': Builtin('isclose', lambda it, a, b, tol=None:
                            it.ops.equals(a, b), pass_interp=True),
     }
